@@ -180,7 +180,7 @@ func (r *runner) recv(c *cli, connect bool) (ok bool) {
 
 // expectEOF waits for the proxy to close the client's socket.
 func (r *runner) expectEOF(c *cli) bool {
-	c.c.SetReadDeadline(time.Now().Add(1500 * time.Millisecond))
+	c.c.SetReadDeadline(time.Now().Add(800 * time.Millisecond))
 	defer c.c.SetReadDeadline(time.Time{})
 	buf := make([]byte, 256)
 	for {
@@ -388,7 +388,7 @@ func runScenario(sc scenario, e *env) (res result) {
 		p, c := sc.Conns[i], r.clis[i]
 		if c.gone {
 			// a vanished client can still have a gated step that must be let go
-			if p.After == "release" {
+			if p.After == "release" || p.After == "gone" {
 				rig.ReleaseRT(i)
 				rig.ReleaseWrite(i)
 			}
@@ -490,6 +490,12 @@ func runScenario(sc scenario, e *env) (res result) {
 	res.FinalCnt = hp.VerifC11Counter()
 	res.Settled = settled && res.FinalCnt == 0
 	sample()
+	// every client that is still there looks at its socket once more
+	for _, c := range append(append([]*cli{}, r.clis...), late...) {
+		if !c.gone && c.id >= 0 && gaterig.Count(rig.Log.Events(), "CliEOF", c.id) == 0 {
+			r.expectEOF(c)
+		}
+	}
 	regsCh := make(chan int, 1)
 	go func() { regsCh <- hp.VerifC11Registered() }()
 	select {
